@@ -782,7 +782,10 @@ fn entity_header_multiset(meta: &Meta) -> Vec<(String, Vec<u8>)> {
 pub fn check_c06(ctx: &mut Ctx, ex: &Exchange, meta: &Meta, plan: &ReqPlan, sig: u64) -> Result<RunOut, Violation> {
     if plan.method != "GET" || !ex.is_multipart() {
         // Which answer is chosen (multipart or a complete 200) is C03's business.
-        if ex.status == 206 && ex.hdr("content-range").is_some() && ex.hdr("content-type").map(|v| v.to_ascii_lowercase().starts_with(b"multipart/")).unwrap_or(false) {
+        // (An entity may itself be a multipart document: then a single-range 206 legitimately
+        // carries Content-Range next to the entity's own multipart Content-Type.)
+        let entity_is_multipart = meta.headers.iter().any(|(k, v)| k.eq_ignore_ascii_case("content-type") && v.to_ascii_lowercase().starts_with(b"multipart/"));
+        if !entity_is_multipart && ex.status == 206 && ex.hdr("content-range").is_some() && ex.hdr("content-type").map(|v| v.to_ascii_lowercase().starts_with(b"multipart/")).unwrap_or(false) {
             return violation("C06", "top-level-content-range", "multipart 206 carries a top-level Content-Range".into());
         }
         return Ok(RunOut { sig, nontrivial: false });
